@@ -43,7 +43,7 @@ RULE = ('case = (config or composition, seed, operation sequence, hostile schedu
 ASSUMPTIONS = ['the library generator is created/seeded by the harness before snapshots; construction-time sampling by the YAML '
                'factory (which legitimately uses the library generator) happens before the first snapshot']
 REQUIRED = {'quick': {'pairs.compared': 60, 'ops.snapshotted': 5000, 'ops.consumed_randomness': 300, 'hostile.actions': 1000,
-                      'children.compared': 40, 'compositions.compared': 10, 'reseeded.compared': 50}}
+                      'children.compared': 40, 'compositions.compared': 10, 'reseeded.compared': 50, 'component.reset_pairs': 200}}
 
 
 def ops_for(rng, n):
@@ -151,9 +151,16 @@ class Hostile:
                 pass
             return f'other{j}'
         if kind == 'unseeded_reset':
-            name = rng.choice(['rooms', 'keydoor', 'dynamic_obstacles', 'teleport'])
+            name = rng.choice(['rooms', 'keydoor', 'dynamic_obstacles', 'teleport', 'crossing', 'crossing7', 'memory', 'memory_rooms', 'empty'])
+            from gym_gridverse.grid_object import Wall
             kw = {'rooms': dict(shape=Shape(7, 7), layout=(2, 2)), 'keydoor': dict(shape=Shape(5, 6)),
-                  'dynamic_obstacles': dict(shape=Shape(5, 5), num_obstacles=2), 'teleport': dict(shape=Shape(5, 5))}[name]
+                  'dynamic_obstacles': dict(shape=Shape(5, 5), num_obstacles=2), 'teleport': dict(shape=Shape(5, 5)),
+                  'crossing': dict(shape=Shape(5, 5), num_rivers=rng.choice([1, 2]), object_type=Wall),
+                  'crossing7': dict(shape=Shape(7, 7), num_rivers=rng.choice([1, 2, 4]), object_type=Wall),
+                  'memory': dict(shape=Shape(5, 5), colors={Color.RED, Color.BLUE, Color.GREEN}),
+                  'memory_rooms': dict(shape=Shape(7, 7), layout=(2, 2), colors={Color.RED, Color.BLUE, Color.GREEN}, num_beacons=1, num_exits=2),
+                  'empty': dict(shape=Shape(5, 6), random_agent=True, random_exit=True)}[name]
+            name = name.rstrip('7')
             reset_fs.factory(name, **kw)()  # rng=None: library generator
             return 'unseeded_' + name
         if kind == 'unseeded_transition':
@@ -361,6 +368,58 @@ def threads(ctx, configs, seed, nops):
                           {'config': name, 'seed': s})
 
 
+def component_level(ctx, n):
+    """every reset function over a parameter grid (incl. 0 / all / flags), every stochastic transition and visibility function:
+    called twice with identically seeded generators they must give equal results, and with an explicit generator they must
+    not touch any global generator - also right after calls of the same helper with other sizes (module-level state)"""
+    from . import c13
+    from gym_gridverse.grid_object import Wall
+    shapes = [(h, w) for h in range(4, 9) for w in range(4, 9)]
+    combos = []
+    for name in c13.PRED:
+        for p in c13.param_grid(name, shapes, ctx.rng, False):
+            combos.append((name, p))
+    ctx.rng.shuffle(combos)
+    done = 0
+    prev = None
+    for idx, (name, p) in enumerate(combos):
+        if done >= n:
+            break
+        if not ctx.mine(idx):
+            continue
+        kw = c13.to_kwargs(name, p)
+        ok, fn = call_real(reset_fs.factory, name, **kw)
+        if not ok:
+            continue
+        seed = ctx.rng.randrange(2**32)
+        gv_rng.reset_gv_rng(777)
+        g0 = global_snapshot()
+        ok1, s1 = call_real(fn, rng=np.random.default_rng(seed))
+        if not ok1:
+            continue
+        # something else of another size in between (module-level buffers / caches)
+        if prev is not None:
+            call_real(prev, rng=np.random.default_rng(seed + 1))
+        ok2, s2 = call_real(fn, rng=np.random.default_rng(seed))
+        ok3, s3 = call_real(fn, rng=np.random.default_rng(seed))
+        g1 = global_snapshot()
+        prev = fn
+        done += 1
+        ctx.ev()
+        ctx.hit('component.reset_pairs')
+        payload = {'fn': name, 'params': c13.jsonable(p), 'seed': seed}
+        if g1 != g0:
+            ctx.violation('isolation', f'global_rng_moved.reset.{name}',
+                          f'reset function {name}({c13.jsonable(p)}) called with an explicit generator moved a global generator',
+                          'component_case', payload)
+        if not (ok2 and ok3) or enc.es(s1) != enc.es(s2) or enc.es(s2) != enc.es(s3):
+            ctx.violation('reproducible', f'component.reset_not_reproducible.{name}',
+                          f'reset function {name}({c13.jsonable(p)}) gives different states for identically seeded generators '
+                          f'(seed {seed})', 'component_case', payload)
+        else:
+            ctx.nontrivial(('component', name, enc.jdump(c13.jsonable(p))))
+
+
 def composition_factory(comp_seed):
     """random composition with stochastic components and a random built-in reset"""
     def make():
@@ -373,9 +432,9 @@ def composition_factory(comp_seed):
         comp.observation = rng.choice([{'name': 'stochastic_raytracing', 'area': a},
                                        {'name': 'from_visibility', 'area': a, 'visibility_function': {'name': 'stochastic_raytracing'}}])
         name, kw = rng.choice([
-            ('rooms', dict(shape=Shape(7, 8), layout=(2, 2))), ('dynamic_obstacles', dict(shape=Shape(6, 6), num_obstacles=3, random_agent=True)),
+            ('rooms', dict(shape=Shape(7, 8), layout=(2, 2))), ('dynamic_obstacles', dict(shape=Shape(6, 6), num_obstacles=rng.choice([0, 1, 3]), random_agent=True)),
             ('teleport', dict(shape=Shape(6, 6))), ('keydoor', dict(shape=Shape(5, 7))),
-            ('crossing', dict(shape=Shape(7, 7), num_rivers=2, object_type=__import__('gym_gridverse').grid_object.Wall)),
+            ('crossing', dict(shape=Shape(7, 7), num_rivers=rng.choice([1, 2, 4]), object_type=__import__('gym_gridverse').grid_object.Wall)),
             ('memory_rooms', dict(shape=Shape(7, 7), layout=(2, 2), colors={Color.RED, Color.GREEN, Color.BLUE}, num_beacons=1, num_exits=2)),
             ('empty', dict(shape=Shape(5, 6), random_agent=True, random_exit=True))])
         comp.types = list(gen.GRID_TYPES)
@@ -403,6 +462,8 @@ def run(ctx):
                     ctx.add('pairs_skipped_for_time')
                     continue
                 seed = ctx.seed * 1000 + s
+                if s == 0:
+                    seed = [0, 1, 2**32 - 1, 2**63 - 1][job % 4]  # special seed values (0 is falsy, largest uint32 / int63)
                 other = configs[(job * 7) % len(configs)]
                 others = [('config', data, seed), ('config', data, seed + 17), ('config', other[2], seed)]
                 payload = {'config': name, 'seed': seed, 'nops': nops, 'sched': job}
@@ -425,6 +486,7 @@ def run(ctx):
             compare_pair(ctx, f'composition#{ctx.seed * 977 + k}', 'comp', factory, seed, nops, k, payload,
                          [('comp', factory, seed), ('comp', factory, seed + 3)])
             ctx.hit('compositions.compared')
+        component_level(ctx, ctx.pick(400, 6000))
         # cross-process digests under different PYTHONHASHSEED
         all_hash_seeds = list(range(1, ctx.pick(5, 33)))
         mine = [h for i, h in enumerate(all_hash_seeds) if ctx.mine(i)]
@@ -458,6 +520,8 @@ def replay(ctx, kind, payload):
         ctx.ev()
         if line and json.loads(line[9:])['digests'].get(payload['config']) != mine[payload['config']]:
             ctx.violation('reproducible', 'trace.differs_across_hash_seeds', f'{payload["config"]}: digests differ', kind, payload)
+    elif kind == 'component_case':
+        component_level(ctx, 400)
     elif kind == 'thread_case':
         threads(ctx, [(n, d) for n, _, d in configs if n == payload['config']] * 4, payload['seed'], 200)
 
